@@ -30,7 +30,7 @@ NEEDED_FEATURES = [
     "filters", "mixed_discrete", "two_cont_choices", "two_cont_states", "stochastic",
     "stoch_multi_dep", "period_transition", "period_utility", "period_filter",
     "period_constraint", "leave_above", "leave_below", "log_grid", "aux_params",
-    "constraint_params", "poison", "excluded_states", "two_stochastic", "horizon_ge_11", "axis_ge_150",
+    "constraint_params", "poison", "excluded_states", "two_stochastic", "horizon_ge_11", "axis_ge_150", "three_cont_states",
 ]
 
 
@@ -56,6 +56,13 @@ def plan(tier, seed):
                                    "max_cells": 600000, "max_T": 3, "max_states": 2, "max_choices": 2},
                       "force": {"two_cont_states": False, "two_stochastic": False},
                       "jit_false": i % 5 == 0, "env": {"VERIF_X64": "1"}})
+    # three continuous states of pairwise different sizes (rank-3 interpolation)
+    for i in range(6 if tier == "quick" else 80):
+        cases.append({"kind": "generic", "index": i, "seed": [seed, 6, i], "cfg": "quick", "three_cont": True,
+                      "cfg_over": {"n_cS": 3, "max_states": 3 + (i % 2), "max_choices": 2, "max_cont_state_pts": 6, "max_cont_choice_pts": 6,
+                                   "max_cells": 60000, "max_T": 3},
+                      "force": {"two_stochastic": False, "mixed_discrete": False},
+                      "jit_false": False, "env": {"VERIF_X64": "1"}})
     m = 12 if tier == "quick" else 120
     for i in range(m):
         cases.append({"kind": "no_choice_last", "index": i, "seed": [seed, 2, i], "cfg": cfg,
@@ -218,16 +225,63 @@ def run_case(case):
 
         orig = sb.solve_continuous_problem
 
+        events = []  # W9 (advisory): event trace of the eager backward loop
+
         def wrapped(*a, **k):
+            events.append(("cont", k.get("vf_arr")))
             r = orig(*a, **k)
             captured.append(r)
             return r
 
+        import lcm.entry_point as ep
+
+        orig_gsdp = getattr(ep, "get_solve_discrete_problem", None)
+
+        def gsdp_w(*a, **k):
+            calc = orig_gsdp(*a, **k)
+
+            def calc_w(*aa, **kk):
+                r = calc(*aa, **kk)
+                events.append(("emax", r))
+                return r
+
+            return calc_w
+
         w2_available = hasattr(sb, "solve_continuous_problem")
         sb.solve_continuous_problem = wrapped
+        if orig_gsdp is not None:
+            ep.get_solve_discrete_problem = gsdp_w
         try:
-            f2, _ = pipeline.get_lcm_function(model, "solve", jit=False)
-            out2 = pipeline.to_np_list(f2(dsl.lcm_params(p)))
+            try:
+                f2, _ = pipeline.get_lcm_function(model, "solve", jit=False)
+            finally:
+                if orig_gsdp is not None:
+                    ep.get_solve_discrete_problem = orig_gsdp
+            raw2 = f2(dsl.lcm_params(p))
+            out2 = pipeline.to_np_list(raw2)
+            # trace specification: (cont, emax) x T; the array entering step j is the array that
+            # left step j-1 (None first); the returned list is the outputs in reverse order
+            try:
+                kinds = [e[0] for e in events]
+                dev = []
+                if kinds != ["cont", "emax"] * ref.T:
+                    dev.append(f"w9_event_order: {kinds[:8]} is not (cont, emax) x {ref.T}")
+                else:
+                    if events[0][1] is not None:
+                        dev.append("w9_last_period_gets_a_continuation_array")
+                    for j in range(1, ref.T):
+                        if events[2 * j][1] is not events[2 * j - 1][1]:
+                            dev.append(f"w9_chain: step {j} does not continue from the array produced by step {j - 1}")
+                    outs9 = [events[2 * j + 1][1] for j in range(ref.T)][::-1]
+                    if len(raw2) != ref.T or any(a_ is not b_ for a_, b_ in zip(raw2, outs9)):
+                        dev.append("w9_result_list: returned list is not the per-period outputs in chronological order")
+                add("w9_traces_checked")
+                add("w9_events_recorded", len(events))
+                if dev:
+                    add("w9_trace_deviations", len(dev))
+                    res.setdefault("localisation", []).extend(dev[:4])
+            except Exception:  # noqa: BLE001
+                add("w9_trace_checker_error")
             add("jit_false_models")
             if outs and len(out2) == len(outs[0]):
                 for t in range(len(out2)):
@@ -280,6 +334,7 @@ def run_case(case):
     res["features"]["kind_" + case["kind"]] = True
     res["features"]["x64_off"] = not bootstrap.X64
     res["features"]["horizon_ge_11"] = ref.T >= 11
+    res["features"]["three_cont_states"] = sum(1 for _, sp in desc["states"] if sp["kind"] != "disc") >= 3
     res["features"]["axis_ge_150"] = any(sp["n"] >= 150 for _, sp in desc["states"])
     res["sig"] = f"{sig}#{pipeline.param_hash(p1)}"
     res["nontrivial"] = bool(nontrivial)
